@@ -93,7 +93,7 @@ def registry_members(rng, count):
 def typing_sig(clause, ev, trace):
     c = ev["cls"]
     kind = "generic" if c["generic"] else ("part" if c["sig"] else c["name"])
-    return "%s|%s|%s|%s" % (clause, c["role"], kind, ev["twin"]["by"])
+    return "%s|%s|%s|%s|%s" % (clause, c["role"], kind, ev["twin"]["by"], ev["ev"])
 
 
 def typing_describe(clause, ev, trace):
@@ -107,7 +107,7 @@ def typing_describe(clause, ev, trace):
         ev["cls"]["enz"]["ovh"], dna.dec(ev["seq"]), show(ev["res"]))
     if ev["twin"]["by"] != "none":
         s += "; twin by %s k=%s -> %s" % (ev["twin"]["by"], ev["twin"]["k"], show(ev["twin"]["res"]))
-    if ev["gen"]["has"]:
+    if ev.get("gen", {}).get("has"):
         s += "; signature-free class -> %s" % show(ev["gen"]["res"])
     return s
 
